@@ -115,4 +115,18 @@ def nrdListP : Prog (ListWrapper CommitPos) :=
 /-- a length-prefixed byte string (`read_bytes_len_prefix`): the one shape where the readers can differ -/
 def bytesP : Prog Bytes := .lenPrefix fun b => .pure b
 
+/-! ### network payloads (`p2p/src/msg.rs`) -/
+
+/-- `Ping` / `Pong` -/
+def pingPongP : Prog GV.SerMsg.PingPong :=
+  .u64 fun td => .u64 fun h => .pure { totalDifficulty := td, height := h }
+
+/-- `TxHashSetRequest` -/
+def txHashSetRequestP : Prog GV.SerMsg.TxHashSetRequest :=
+  .fixed HASH_SIZE fun h => .u64 fun height => .pure { hash := h, height := height }
+
+/-- `TxHashSetArchive` -/
+def txHashSetArchiveP : Prog GV.SerMsg.TxHashSetArchive :=
+  .fixed HASH_SIZE fun h => .u64 fun height => .u64 fun bytes => .pure { hash := h, height := height, bytes := bytes }
+
 end GV.DecProg
